@@ -27,6 +27,7 @@ func topName(f *ssa.Function) string { return engine.ShortName(topFn(f)) }
 func c01(c *Ctx) {
 	defer c01announceInOrder(c)
 	defer c01expungeIsBarrier(c)
+	defer c01idleStartsEmpty(c)
 	P, R := c.P, c.R
 	R.Explain("R01.1", "T-WRITERS: the snapshot's message list (snapMsgList.msg/idx, snapMsg.ID/UID/flags/toExpunge) is written only by newMsgList, snapMsgList.insert/insertOutOfOrder/remove/update and snapshot.setMessageFlags; in-place FlagSet mutators on a snapshot's flags occur only in Mailbox.Fetch's \\Seen branch, where the same iteration appends ItemFlags(msg.flags) to the FETCH it sends; the snapshot-level mutators are called only from the three responders' handle methods and State.UpdateMessageRemoteID; State.snap is assigned only by Select/Examine/close/NewState.")
 	R.Explain("R01.2", "T-MUST inside each Responder.handle: every nil-error return that follows a snapshot mutation returns a non-empty response built by the matching constructor (Exists/Expunge/Fetch) unless it is on the true edge of an enumerated silencer (contexts.IsClose, fetch.asSilent, FlagSet.Equals).")
@@ -720,4 +721,71 @@ func c01expungeIsBarrier(c *Ctx) {
 		}
 	}
 	R.Min("R01.8", "possibly-true returns of canSkip methods", n, 6)
+}
+
+// c01idleStartsEmpty (R01.9): live pushing starts with an empty queue.
+func c01idleStartsEmpty(c *Ctx) {
+	P, R := c.P, c.R
+	R.Explain("R01.9", "nothing is queued when live pushing starts: every store that arms State.idleCh (a non-nil channel) is dominated by a flush of the responder queue that holds nothing back (flushResponses / a flush-like function with the constant true for permitExpunge) on its nil-error edge.  While idleCh is set, PushResponder applies and announces responders immediately; anything still queued from before - a held-back EXPUNGE and the EXISTS of its re-add - is overtaken by them and later inserted into the middle of the view the client has built.")
+	idleFld := c.fieldOf("internal/state", "State", "idleCh")
+	pf := c.permitFuncs("R01.9")
+	n := 0
+	for _, f := range c.funcsInPkg("internal/state") {
+		for _, b := range f.Blocks {
+			for _, in := range b.Instrs {
+				st, ok := in.(*ssa.Store)
+				if !ok || !fieldAddrIs(st.Addr, idleFld) || engine.IsNilConst(st.Val) {
+					continue
+				}
+				n++
+				ok2 := false
+				for _, cs := range engine.Calls(f) {
+					if cs.Instr.Parent() != f {
+						continue
+					}
+					full := false
+					for _, callee := range P.Callees(cs) {
+						if idx, isFlush := pf[callee]; isFlush {
+							if resolvePermit(engine.ArgForParam(cs.Common(), callee, idx), f, pf, triNone) == triTrue {
+								full = true
+							}
+						}
+					}
+					if !full {
+						continue
+					}
+					call, isCall := cs.Instr.(*ssa.Call)
+					if !isCall {
+						continue
+					}
+					// nil-error edge of this flush dominates the store
+					for _, r := range *call.Referrers() {
+						ex, isEx := r.(*ssa.Extract)
+						if !isEx || ex.Type().String() != "error" {
+							continue
+						}
+						for _, r2 := range *ex.Referrers() {
+							bin, isBin := r2.(*ssa.BinOp)
+							if !isBin {
+								continue
+							}
+							for _, r3 := range *bin.Referrers() {
+								if iff, isIf := r3.(*ssa.If); isIf {
+									nilIx := 1
+									if bin.Op == token.EQL {
+										nilIx = 0
+									}
+									if engine.EdgeDominates(iff.Block(), nilIx, b) {
+										ok2 = true
+									}
+								}
+							}
+						}
+					}
+				}
+				R.Check(ok2, "R01.9", c.name(f)+"|arm idleCh", P.Pos(st.Pos()), "dominated by a successful flush with permitExpunge=true", "State.idleCh is armed without a preceding successful flush that holds nothing back: responders still queued are overtaken by the ones pushed live during IDLE")
+			}
+		}
+	}
+	R.Min("R01.9", "stores arming State.idleCh", n, 1)
 }
